@@ -52,7 +52,8 @@ func c21Run(c c21Case) (*eng.Fail, bool) {
 	if err != nil {
 		return nil, false // overlapping layout: not a code image
 	}
-	ps := parsers[c.Cfg]
+	// one fresh parser per image, as the tool creates one per program
+	ps := rvx.Parser(c.Cfg)
 	var ins []parser.Instruction
 	var perr error
 	p, stack := eng.Catch(func() { ins, perr = parser.Parse(mem, ps) })
@@ -128,6 +129,13 @@ walk:
 				if da, db := postDigest(pa), postDigest(pb); da != db {
 					return &eng.Fail{Sig: "Parse effects-not-equivalent " + w.name, What: fmt.Sprintf("folded effects of %s at %#x differ from the lifting: {%s} vs {%s}", w.name, w.addr, da, db), Case: c}, true
 				}
+				// and with the reference machine (independent of any state the parser may keep)
+				if !pa.Wrap {
+					m := rvx.RefRun(c.Cfg, w.word, w.name, w.addr, pre)
+					if cls, diff := rvx.Compare(c.Cfg, pa, m, w.addr, pre); cls != "" {
+						return &eng.Fail{Sig: "Parse effects-wrong " + w.name + " " + cls, What: fmt.Sprintf("effects of %s at %#x in the parsed image: %s", w.name, w.addr, diff), Case: c}, true
+					}
+				}
 			}
 		}
 	}
@@ -136,10 +144,10 @@ walk:
 
 func init() {
 	checks["C21"] = eng.Check{
-		Rule:        "code images of 1..2 blocks (at 0x1000 and 0x2000 / directly adjacent / 0x1000 and 2^64-16), each block every sequence of <=3 words from {addi, sw, beq, jal, lr.w(A only), 00000000, ffffffff} followed by 0..3 extra bytes (second block <=2 words in quick), in both input orders, rv64ima and rv32i: parser.Parse must fail iff the reference walk meets an undecodable or truncated word, else yield the exact tiling with the image bytes, the front end's text/type and effects of equal kinds/keys/widths that are equivalent to the front end's lifting under 8 pre-states. Non-trivial = image whose layout is valid (non-overlapping).",
+		Rule:        "code images of 1..2 blocks (at 0x1000 and 0x2000 / directly adjacent / 0x1000 and 2^64-16), each block every sequence of <=3 words from {addi, sw, beq, jal, lr.w(A only), auipc, jalr (linking), 00000000, ffffffff} followed by 0..3 extra bytes (second block 1 word in quick), in both input orders, rv64ima and rv32i: parser.Parse must fail iff the reference walk meets an undecodable or truncated word, else yield the exact tiling with the image bytes, the front end's text/type and effects of equal kinds/keys/widths that are equivalent to the front end's lifting under 8 pre-states and agree with the reference machine (so a parser that keeps state across positions cannot hide behind its own lifting). Non-trivial = image whose layout is valid (non-overlapping).",
 		Assumptions: []string{"blocks are non-empty and built through the real elf.newBlock/newMemory (hook)"},
 		Run: func(r *eng.Run) {
-			words := []uint32{0x00100093, 0x00112023, 0x00208463, 0xffdff06f, 0x1000a1af, 0x00000000, 0xffffffff}
+			words := []uint32{0x00100093, 0x00112023, 0x00208463, 0xffdff06f, 0x1000a1af, 0x00001197, 0x000300e7, 0x00000000, 0xffffffff}
 			var contents []string
 			var gen func(prefix string, n int)
 			gen = func(prefix string, n int) {
@@ -160,7 +168,7 @@ func init() {
 			if r.Quick() {
 				small = nil
 				for _, c := range contents {
-					if len(c) <= 2*11 {
+					if len(c) <= 2*7 {
 						small = append(small, c)
 					}
 				}
